@@ -474,3 +474,24 @@ Theorem C04_image_metadata_views_agree : forall (u n c w h : mval) (ops : list i
   assoc (fld_name f) (d_items (run_ops (im_new u n c w h) ops)) = Some (attr f (run_ops (im_new u n c w h) ops)).
 Proof. intros u n c w h ops f. exact (run_ops_synced ops _ (im_new_synced u n c w h) f). Qed.
 Print Assumptions C04_image_metadata_views_agree.
+
+(* ================================================================= EPUB chapter numbers *)
+From S2T Require Import C04.ModelEpub C04.ProofsEpub.
+From Coq Require Import Sorted.
+(* for every spine and every behaviour of _extract_chapter: the unit number of a kept chapter is its 1-based position
+   in the spine (so it is a positive integer and names the right spine item), and the numbers increase strictly *)
+Theorem C04_epub_unit_numbers :
+  forall (produces : str -> bool) (spine : list str),
+    (forall i k, In (i, k) (epub_units produces spine) <->
+                 exists j : nat, nth_error spine j = Some i /\ produces i = true /\ k = (1 + Z.of_nat j)%Z)
+    /\ (forall i k, In (i, k) (epub_units produces spine) -> (1 <= k)%Z)
+    /\ StronglySorted Z.lt (map snd (epub_units produces spine)).
+Proof.
+  intros produces spine. unfold epub_units. split; [|split].
+  - intros i k. exact (number_spine_spec produces spine 0%Z i k).
+  - intros i k H. apply number_spine_gt in H. apply Z.lt_le_incl in H. exact (Zlt_le_succ 0 k (number_spine_gt_aux H)) || idtac.
+    revert H. clear. intro H. destruct (Z.eq_dec k 0) as [->|N]; [|apply Z.le_succ_l in H; exact H]. exact (Z.le_trans _ _ _ H (Z.le_refl 0)) || idtac.
+    apply Z.le_succ_l. exact H.
+  - exact (number_spine_sorted produces spine 0%Z).
+Qed.
+Print Assumptions C04_epub_unit_numbers.
